@@ -338,7 +338,8 @@ impl Inner {
                 continue;
             }
             if let Some(nat) = ds.nat.as_ref() {
-                if !nat.allowed.contains(&from) {
+                // address-restricted cone NAT without hairpinning
+                if from == ds.addr || !nat.allowed.contains(&from) {
                     if full {
                         self.trace.push(Ev::Drop { t: now, seq, why: "nat-filtered" });
                     }
